@@ -684,7 +684,7 @@ impl Scenario for NotifScenario {
                 .with_async_channel_size(4)
                 .build();
             let n = w
-                .add_node(31 + i as u64, ConfigBuilder::new().with_notification_protocol(cfg).with_keep_alive_timeout(Duration::from_secs(60)))
+                .add_node(31 + i as u64, ConfigBuilder::new().with_notification_protocol(cfg).with_keep_alive_timeout(Duration::from_secs(3600)))
                 .expect("node");
             assert_eq!(n, i);
             handles.push(handle);
@@ -709,10 +709,11 @@ impl Scenario for NotifScenario {
         usize::from(st.pc < self.program.len())
     }
 
-    /// once everything is quiescent, 4 x 6 s of virtual time: the protocol's negotiation timeout (10 s) and its
-    /// validation re-check timer (5 s) run on the runtime clock (cfg hook) and get their chance to fire
+    /// once everything is quiescent, 4 x 30 s of virtual time: the protocol's negotiation timeout (10 s) and its
+    /// validation re-check timer (5 s) run on the runtime clock (cfg hook) and get their chance to fire — with a wide
+    /// margin, so that a retuning of those timers does not turn into "request never answered"
     fn time(&self) -> (u32, Duration) {
-        (4, Duration::from_secs(6))
+        (4, Duration::from_secs(30))
     }
 
     fn lazy_apply(&self, st: &mut St, w: &mut World, _k: usize) {
@@ -1007,9 +1008,9 @@ pub fn run(ctx: &mut Ctx) {
     ctx.assume("interleaving granularity is one poll of one task; tokio::select! branch order inside a poll is fixed by the runtime seed");
     ctx.assume(
         "the notification protocol's negotiation timeout (10 s) and 'peer did not answer' timer (5 s) run on the runtime's virtual clock (cfg hook replacing futures_timer::Delay): \
-         after quiescence every execution lets 4 x 6 s pass, so every pending negotiation is ended by its timeout and every accepted open request is owed a result",
+         after quiescence every execution lets 4 x 30 s pass, so every pending negotiation is ended by its timeout and every accepted open request is owed a result",
     );
-    ctx.assume("keep-alive timeout 60 s > the 24 s of idle clock ticks: connections are only lost through the scripted cut(A-B)");
+    ctx.assume("keep-alive timeout 3600 s > the 120 s of idle clock ticks: connections are only lost through the scripted cut(A-B)");
     ctx.assume("'connected' is the harness's ground truth: the A-B carrier was not cut, or after a cut an uncut carrier exists and both nodes reported ConnectionEstablished for the other one");
 }
 
